@@ -208,9 +208,19 @@ def run(ctx):
             ctx.notes["search_evaluations"] = int(f[1])
     for f in fails:
         w = f[3].split(" arg=")
-        if ctx.failing_input(f[1], f[2], f[3], f[4],
-                             extra={"target": f[1], "input_hex": w[0], "arg": int(w[1]) if len(w) > 1 else 0}):
+        extra = {"target": f[1], "input_hex": w[0], "arg": int(w[1]) if len(w) > 1 else 0}
+        # hygiene class `poisoned` (harness/c16/hygiene.go): the replay asks the control input first
+        import re
+        m = re.search(r"control input (\S+) arg=(-?\d+)", f[4])
+        if m:
+            extra["control_hex"], extra["control_arg"] = m.group(1), int(m.group(2))
+        if ctx.failing_input(f[1], f[2], f[3], f[4], extra=extra):
             reported += 1
+    ctx.notes["hygiene_oracles"] = (
+        "the search worker (harness/c16/hygiene.go) repeats every call that ended ok|err on a sub-slice with 24 guard bytes behind "
+        "it (classes beyondlen, capdep), asks it a second time (unstable) and then re-asks the target's known-good control input "
+        "(first input of the target answered ok) and the previous target's control: the answers must be the baseline ones "
+        "(poisoned) - a hostile input must not influence later parses, also not through the shared spsMap/ppsMap/SEI context")
     ctx.log("search: %d failing signatures (%d not known)" % (len(fails), reported))
     # the built command line tools on hostile files
     reported += run_tools(ctx, exe, ctx.n(200, 4000))
@@ -304,7 +314,10 @@ def replay(ctx, path):
         return 0 if rc in (0, 1) and "panic:" not in e else 1
     if r.get("kind") == "failing-input" and r.get("target"):
         exe, _ = build(ctx)
-        rc, so, e = sh2(limited(exe, ["replay", r["target"], r.get("input_hex", "-"), r.get("arg", 0)]), timeout=120)
+        rargs = ["replay", r["target"], r.get("input_hex", "-"), r.get("arg", 0)]
+        if r.get("control_hex"):
+            rargs += [r["control_hex"], r.get("control_arg", 0)]
+        rc, so, e = sh2(limited(exe, rargs), timeout=120)
         print("replay on the current tree:", so.strip() or e.strip())
         cls = so.split("\t")[0].strip()
         return 0 if cls in ("ok", "err") else 1
